@@ -39,6 +39,7 @@ class GCtx:
         self.obligations = []  # (label, formula)
         self.squares = []  # (square value term, |x| term)
         self.sites = {}
+        self.zero_over_zero = False  # True: 0/0 is modelled as NaN (degenerate operands); False: denominators are assumed non-zero
 
     def site(self, kind):
         self.sites[kind] = self.sites.get(kind, 0) + 1
@@ -131,19 +132,29 @@ class GV:
         a, b = self.v, o.v
         r = _fresh("div")
         c = ctx()
-        c.assumptions.append(b != 0)
+        nan = z3.Or(self.nan, o.nan)
+        if c.zero_over_zero:
+            # x/0 with x != 0 is an infinity (not modelled): assumed away; 0/0 is NaN
+            c.assumptions.append(z3.Or(b != 0, a == 0))
+            nan = z3.Or(nan, z3.And(a == 0, b == 0))
+        else:
+            c.assumptions.append(b != 0)
+        # (facts about the quotient only where it is a number: b != 0)
         c.facts += [
-            z3.Implies(z3.Or(z3.And(a >= 0, b > 0), z3.And(a <= 0, b < 0)), r >= 0),
-            z3.Implies(z3.Or(z3.And(a >= 0, b < 0), z3.And(a <= 0, b > 0)), r <= 0),
-            z3.Implies(a == 0, r == 0),
-            z3.Implies(b == 1, r == a),
-            z3.Implies(b == -1, r == -a),
-            z3.Implies(_abs(a) <= _abs(b), _abs(r) <= 1),
-            z3.Implies(_abs(a) >= _abs(b), _abs(r) >= 1),
-            z3.Implies(_abs(b) >= 1, _abs(r) <= _abs(a)),
-            z3.Implies(_abs(b) <= 1, _abs(r) >= _abs(a)),
+            z3.Implies(b != 0, f)
+            for f in (
+                z3.Implies(z3.Or(z3.And(a >= 0, b > 0), z3.And(a <= 0, b < 0)), r >= 0),
+                z3.Implies(z3.Or(z3.And(a >= 0, b < 0), z3.And(a <= 0, b > 0)), r <= 0),
+                z3.Implies(a == 0, r == 0),
+                z3.Implies(b == 1, r == a),
+                z3.Implies(b == -1, r == -a),
+                z3.Implies(_abs(a) <= _abs(b), _abs(r) <= 1),
+                z3.Implies(_abs(a) >= _abs(b), _abs(r) >= 1),
+                z3.Implies(_abs(b) >= 1, _abs(r) <= _abs(a)),
+                z3.Implies(_abs(b) <= 1, _abs(r) >= _abs(a)),
+            )
         ]
-        return GV(r, z3.Or(self.nan, o.nan))
+        return GV(r, nan)
 
     def __rtruediv__(self, o):
         return lift(o) / self
@@ -307,13 +318,16 @@ class GuardLib:
         return GV(r, z3.Or(x.nan, x.v < -1, x.v > 1))
 
     def sin(self, x):
-        return self._ranged("sin", x, -1, 1)
+        x = lift(x)
+        return self._ranged("sin", x, -1, 1, extra=lambda r: [z3.Implies(x.v == 0, r == 0)])
 
     def cos(self, x):
-        return self._ranged("cos", x, -1, 1)
+        x = lift(x)
+        return self._ranged("cos", x, -1, 1, extra=lambda r: [z3.Implies(x.v == 0, r == 1)])
 
     def tan(self, x):
-        return self._ranged("tan", x)
+        x = lift(x)
+        return self._ranged("tan", x, extra=lambda r: [z3.Implies(x.v == 0, r == 0)])
 
     def tanh(self, x):
         return self._ranged("tanh", x, -1, 1, sign_of=lift(x))
@@ -325,10 +339,12 @@ class GuardLib:
         return self._ranged("asinh", x, sign_of=lift(x))
 
     def cosh(self, x):
-        return self._ranged("cosh", x, 1)
+        x = lift(x)
+        return self._ranged("cosh", x, 1, extra=lambda r: [z3.Implies(x.v == 0, r == 1)])
 
     def exp(self, x):
-        return self._ranged("exp", x, 0)
+        x = lift(x)
+        return self._ranged("exp", x, 0, extra=lambda r: [z3.Implies(x.v == 0, r == 1)])
 
     def log(self, x):
         return self._ranged("log", x)
